@@ -912,6 +912,102 @@ def watch_nested_project_state_case(pr):
     return None
 
 
+def watch_touch_then_change_during_skip_case(pr):
+    """watch mode: an identical rewrite leads to a (slow) skip evaluation; a real change lands while it is evaluated"""
+    pr.write("src/in.txt", "v1")
+    t = _copy_target(extra_inputs=[{"cmd_stdout": "sleep 1.5; echo probe"}])
+    pr.write("zinoma.yml", yml({"t": t}))
+    p = _start_watch(pr, "t")
+    if not pr.wait_for(lambda: pr.count("e t") >= 1, 30):
+        return None
+    time.sleep(2.5)
+    with open(pr.path("src/in.txt"), "w") as f:
+        f.write("v1")                       # identical content, new modification time
+    st = os.stat(pr.path("src/in.txt"))
+    os.utime(pr.path("src/in.txt"), ns=(st.st_atime_ns, st.st_mtime_ns + 9_000_000))
+    pr.commands.append("rewrite src/in.txt identically")
+    time.sleep(0.7)                         # the skip is being evaluated (the probe command sleeps 1.5 s)
+    pr.edit("src/in.txt", "v2")
+    if not pr.wait_for(lambda: (pr.read("out.txt") or "").strip() == "v2", 30):
+        return {"property": "C06", "expected": "a real change made while an identical rewrite was being evaluated (and skipped) ends up built: out.txt = v2", "observed": "out.txt = %r; log %s" % ((pr.read("out.txt") or "").strip(), pr.log()[-6:]), "output": pr.output_of(p)[-500:]}
+    return None
+
+
+def watch_failed_rebuild_blocks_dependents_case(pr):
+    """watch mode: lib built fine, then its own input changes and the rebuild fails; app's own input changes afterwards:
+    app stays blocked"""
+    pr.write("lsrc/in.txt", "good")
+    pr.write("asrc/a.txt", "a0")
+    lib = {"input": [{"paths": ["lsrc"]}], "build": 'echo "s lib" >> "$ZLOG"\nif [ "$(cat lsrc/in.txt)" = bad ]; then echo "f lib" >> "$ZLOG"; exit 1; fi\necho "e lib" >> "$ZLOG"'}
+    app = {"dependencies": ["lib"], "input": [{"paths": ["asrc"]}], "build": logging_build("app")}
+    pr.write("zinoma.yml", yml({"lib": lib, "app": app}))
+    p = pr.spawn("--watch", "app")
+    if not _wait_builds(pr, "app", 1):
+        return None
+    time.sleep(0.5)
+    pr.edit("lsrc/in.txt", "bad")
+    if not pr.wait_for(lambda: "f lib" in pr.log(), WAIT):
+        return None
+    time.sleep(0.7)
+    n = pr.count("s app")
+    pr.edit("asrc/a.txt", "a1")
+    time.sleep(2.5)
+    if pr.count("s app") > n:
+        return {"property": ["C07", "C01"], "expected": "lib's rebuild failed: app, which depends on it, stays blocked also when its own input changes", "observed": "app started again; log %s" % pr.log(), "output": pr.output_of(p)[-400:]}
+    pr.edit("lsrc/in.txt", "fixed")
+    if not pr.wait_for(lambda: pr.count("e app") > n, WAIT):
+        return {"property": "C06", "expected": "once lib is repaired and rebuilt, app (whose input changed meanwhile) is rebuilt", "observed": "log %s" % pr.log()[-8:], "output": pr.output_of(p)[-400:]}
+    return None
+
+
+def service_with_input_second_run_case(pr):
+    """a service that declares inputs, in a second and third invocation on an untouched tree: it is started each time"""
+    pr.write("conf/db.conf", "1")
+    ts = {"db": {"input": [{"paths": ["conf"]}], "service": SVC}, "migrate": {"dependencies": ["db"], "build": 'echo "s migrate" >> "$ZLOG"\nsleep 0.6\nif kill -0 "$(cat svc.pid)" 2>/dev/null; then echo "up migrate" >> "$ZLOG"; else echo "down migrate" >> "$ZLOG"; fi\necho "e migrate" >> "$ZLOG"'}}
+    pr.write("zinoma.yml", yml(ts))
+    for rep in (1, 2, 3):
+        pr.clear_log()
+        if os.path.exists(pr.path("svc.pid")):
+            os.remove(pr.path("svc.pid"))
+        r = pr.run("migrate", timeout=30)
+        if r.timed_out or r.rc != 0:
+            return {"property": "C04", "expected": "invocation %d exits 0" % rep, "observed": "exit %s timed out %s" % (r.rc, r.timed_out), "zinoma": r.brief()}
+        if "up migrate" not in pr.log():
+            return {"property": ["C11", "C01"], "expected": "invocation %d: the service db (which declares inputs, untouched) is started before migrate and is up while it builds" % rep, "observed": "log %s" % pr.log(), "zinoma": r.brief()}
+    p = pr.spawn("db")
+    ok = pr.wait_for(lambda: any(_alive(q) for q in _pids(pr, "svc")[-1:]), 6)
+    time.sleep(0.5)
+    alive = p.poll() is None
+    if alive:
+        os.kill(p.pid, signal.SIGTERM)
+        pr.wait_exit(p, 8)
+    pr.kill(p)
+    if not ok:
+        return {"property": "C11", "expected": "`zinoma db` on the untouched tree starts the service", "observed": "no instance; log %s" % pr.log()[-4:], "output": pr.output_of(p)[-300:]}
+    return None
+
+
+def watch_compound_extension_case(pr):
+    """watch mode with compound extensions (d.ts, spec.js, tar.gz): a change to a matching file triggers"""
+    pr.write("types/a.d.ts", "t0")
+    pr.write("types/plain.ts", "p0")
+    t = {"input": [{"paths": ["types"], "extensions": ["d.ts", "spec.js"]}], "build": logging_build("t")}
+    pr.write("zinoma.yml", yml({"t": t}))
+    p = pr.spawn("--watch", "t")
+    if not _wait_builds(pr, "t", 1):
+        return None
+    time.sleep(0.5)
+    n = pr.count("s t")
+    pr.edit("types/plain.ts", "p1")
+    time.sleep(QUIET)
+    if pr.count("s t") != n:
+        return {"property": ["C16", "C15"], "expected": "types/plain.ts does not end with .d.ts or .spec.js: no run", "observed": "t started", "output": pr.output_of(p)[-300:]}
+    pr.edit("types/a.d.ts", "t1-longer")
+    if not pr.wait_for(lambda: pr.count("s t") > n, WAIT):
+        return {"property": ["C16", "C15"], "expected": "types/a.d.ts ends with the declared extension .d.ts: its change triggers the target", "observed": "no start in %ss" % WAIT, "output": pr.output_of(p)[-300:]}
+    return None
+
+
 def cases(seed, tier="quick"):
     C = lambda n, fn, what: Case("live", n, fn, what)
     return [
@@ -941,6 +1037,10 @@ def cases(seed, tier="quick"):
         C("service-dependency", service_dependency_case, "service only depended on: up during the build, stopped at exit"),
         C("service-shared-deep", service_shared_deep_case, "service shared by a shallow and a deep dependent"),
         C("service-restart", service_restart_case, "restart stops the old instance first"),
+        C("service-with-input-second-run", service_with_input_second_run_case, "a service with inputs on an untouched tree is started by every invocation"),
+        C("watch-compound-extension", watch_compound_extension_case, "compound extensions in the watcher"),
+        C("watch-touch-then-change-during-skip", watch_touch_then_change_during_skip_case, "a change landing while a skip is evaluated"),
+        C("watch-failed-rebuild-blocks-dependents", watch_failed_rebuild_blocks_dependents_case, "a failed rebuild keeps dependents blocked"),
         C("service-restart-by-build-dependency", service_restart_by_build_dependency_case, "restart caused by a rebuilt build dependency"),
         C("aggregate-service-and-its-dependent", aggregate_service_and_its_dependent_case, "an aggregate listing a service and a build that depends on it"),
         C("watch-nested-project-state", watch_nested_project_state_case, "state writes of a nested project do not trigger the outer watcher"),
